@@ -59,7 +59,7 @@ def shrink(t, xb, nd):
     return t.reshape(*xb, *t.shape[t.dim() - nd:]).clone()
 
 
-GENERIC = ("Dense", "OB", "SumBatch", "Cat", "Derived")     # classes without an inv_quad_logdet override (base-class path)
+GENERIC = ("Dense", "OB", "SumBatch", "Cat", "Derived", "SumCD")     # classes without an inv_quad_logdet override (base-class path)
 
 
 # ----------------------------------------------------------------------------------------- spec tools
@@ -72,7 +72,7 @@ def spec_batch(s):
         return opbuild.shape_of(s["e"])[:-2]
     if k == "SumBatch":
         return list(s["A"].shape[:-3])
-    if k in ("Cat", "Derived"):
+    if k in ("Cat", "Derived", "SumCD"):
         return list(dense(s).shape[:-2])
     if k == "Diag":
         return list(s["d"].shape[:-1])
@@ -110,6 +110,8 @@ def spec_size(s):
         return s["parts"][0].shape[-1]
     if k == "Derived":
         return s["A"].shape[-1] + (s["B"].shape[-2] if s["how"] == "cat_rows" else 0)
+    if k == "SumCD":
+        return s["A"].shape[-1]
     if k == "Diag":
         return s["d"].shape[-1]
     if k in ("CDiag", "Ident"):
@@ -203,6 +205,10 @@ def build(s, grad=True):
         return O.SumBatchLinearOperator(O.DenseLinearOperator(g(A.movedim(-3, bd).contiguous())), block_dim=bd)
     if k == "Cat":
         return O.CatLinearOperator(*[O.DenseLinearOperator(g(p)) for p in s["parts"]], dim=s["dim"])
+    if k == "SumCD":
+        # a CholLinearOperator (either orientation, smaller batch) + a batched dense operator: SumLinearOperator expands
+        chol = O.CholLinearOperator(O.TriangularLinearOperator(g(s["T"]), upper=s["upper"]), upper=s["upper"])
+        return chol + O.DenseLinearOperator(g(s["A"]))
     if k == "Derived":
         # an operator that ARRIVES with pre-filled caches: derived from a dense operator (whose root_decomposition was
         # computed before when "warm") by a method that transplants / updates the cached roots
@@ -235,10 +241,19 @@ def build(s, grad=True):
     if k == "Chol":
         return xp(O.CholLinearOperator(O.TriangularLinearOperator(g(sh(s["T"], 2)), upper=s["upper"]), upper=s["upper"]))
     if k == "Kron":
-        if "fxb" in s:     # factors with different (broadcasting) batch shapes
-            return O.KroneckerProductLinearOperator(
-                *[O.DenseLinearOperator(g(shrink(f, xb, 2))) for f, xb in zip(s["fs"], s["fxb"])])
-        return O.KroneckerProductLinearOperator(*[O.DenseLinearOperator(g(f)) for f in s["fs"]])
+        # "fxb": factors with different (broadcasting) batch shapes; "fk"/"fT": a factor given as a CholLinearOperator
+        # ("chol-lo" / "chol-up") by its triangular factor fT[i] (fs[i] is then the dense matrix it denotes)
+        facs = []
+        for i, f in enumerate(s["fs"]):
+            xb = s["fxb"][i] if "fxb" in s else None
+            kind = s["fk"][i] if "fk" in s else "dense"
+            if kind == "dense":
+                facs.append(O.DenseLinearOperator(g(f if xb is None else shrink(f, xb, 2))))
+            else:
+                T = s["fT"][i] if xb is None else shrink(s["fT"][i], xb, 2)
+                up = kind == "chol-up"
+                facs.append(O.CholLinearOperator(O.TriangularLinearOperator(g(T), upper=up), upper=up))
+        return O.KroneckerProductLinearOperator(*facs)
     if k == "KPAD":
         kron = O.KroneckerProductLinearOperator(*[O.DenseLinearOperator(g(f)) for f in s["fs"]])
         return O.KroneckerProductAddedDiagLinearOperator(kron, kdiag_op(s["dk"], s["fs"], grad))
@@ -291,6 +306,9 @@ def dense(s):
         return s["A"].sum(-3)
     if k == "Cat":
         return torch.cat([p.clone() for p in s["parts"]], dim=s["dim"])
+    if k == "SumCD":
+        T = s["T"]
+        return (T.mT @ T if s["upper"] else T @ T.mT) + s["A"]
     if k == "Derived":
         A, how = s["A"], s["how"]
         if how == "cat_rows":        # [[A, B^T], [B, D]]  (cross_mat B is K x N)
@@ -445,6 +463,16 @@ def leaf_lit(s, pc=None, croot=None):
               for U, d in zip(members(s["U"], 2), members(s["d"], 1))]
     else:
         raise ValueError(k)
+    if "xb" in s and croot is None and pc is None and k in ("Dense", "Diag", "CDiag", "Ident", "Chol"):
+        # an .expand()-ed batch: the BASE members and the model of _expand_batch (Model.v chol_expand_batch), so that the
+        # shard executes the expansion (which keeps the Cholesky orientation flag)
+        xb = list(s["xb"])
+        pxb = [1] * (len(bs) - len(xb)) + xb
+        rep = [f // x for f, x in zip(bs, pxb)]
+        idx = torch.arange(B).reshape(*bs) if bs else torch.arange(1)
+        base_first = shrink(idx.reshape(*bs, 1, 1), xb, 2).reshape(-1).tolist()   # flat index of one copy of each base member
+        return "(BLeaf %s (chol_expand_batch %s %s %s))" % (natlist(bs), natlist(rep), natlist(pxb),
+                                                           lst(["(%s)" % ms[i] for i in base_first]))
     return "(BLeaf %s %s)" % (natlist(bs), lst(["(%s)" % m for m in ms]))
 
 
